@@ -200,7 +200,7 @@ def queries(draw):
                                       "get_phosphosequence", "get_phosphosites", "get_full_phosphostatus_kappa_distribution"]))
         return {"obj": obj, "q": q, "args": None}
     if kind == 4:
-        return {"obj": obj, "q": "get_deltaMax", "args": [draw(st.booleans())]}
+        return {"obj": obj, "q": "get_deltaMax", "args": [draw(st.sampled_from([True, True, False]))]}
     if kind == 5:
         g1 = draw(GROUP)
         g2 = draw(st.one_of(st.none(), GROUP))
@@ -229,6 +229,20 @@ def queries(draw):
     return {"obj": obj, "q": "get_PPII_propensity", "args": [draw(st.sampled_from(["hilser", "creamer", "kallenbach", "HILSER", "nope"]))]}
 
 
+_BEATING = []
+
+
+def beating_patterns():
+    """Arrangements (N = 6..10) whose own delta exceeds the documented delta-max of their composition (ratio in the clamp band or beyond)."""
+    if not _BEATING:
+        from .. import patmax
+        for N in (6, 7, 8, 9, 10):
+            for comp, best in sorted(patmax.table(N).items()):
+                if comp[0] + comp[1] and ref.delta(ref.pat_from_str(best)) > max(ref.dmax_refs(*comp)):
+                    _BEATING.append(best)
+    return _BEATING
+
+
 @st.composite
 def inits(draw):
     n = draw(st.integers(1, 3))
@@ -238,6 +252,10 @@ def inits(draw):
             s = draw(gens.exact_words("STY" * 4 + "KEDRG" + ref.AA, draw(st.integers(1, 30))))
             sty = [i + 1 for i, r in enumerate(s) if r in ref.STY]
             phos = draw(st.lists(st.sampled_from(sty + [1, len(s)]), max_size=4, unique=True))
+        elif draw(st.integers(0, 5)) == 0:
+            # the delta-maximising arrangement of a small composition (its own delta may exceed the documented delta-max)
+            s = draw(gens.spelled(draw(st.sampled_from(beating_patterns()))))
+            phos = []
         elif draw(st.integers(0, 4)) == 0:
             # a designed, segregated ordering (charge blocks, neutrals split between start, middle and end), up to 36 residues
             n_ = draw(st.integers(6, 36))
